@@ -121,6 +121,48 @@ pub fn run<T: Serialize + Deserialize + WithSchema + Packed + Canon>(op: &str, t
                 Err(e) => format!("ERR {}", err_class(&e)),
             }
         }
+        // ty_det <container> <version> <validx> : two saves of the same value (with unrelated heap/stack churn in
+        // between) give identical bytes
+        "ty_det" => {
+            let (container, version, idx) = (toks[0], toks[1].parse::<u32>().unwrap(), toks[2].parse::<usize>().unwrap());
+            let vals = values();
+            let a = save_container(container, version, &vals[idx]);
+            let noise: Vec<Vec<u8>> = (0..64).map(|i| vec![(i * 37 + 11) as u8; 1 + i * 7]).collect();
+            std::hint::black_box(&noise);
+            drop(noise);
+            let vals2 = values();
+            let b = save_container(container, version, &vals2[idx]);
+            match (a, b) {
+                (Ok(a), Ok(b)) => format!("{} {} {}", if a == b { 1 } else { 0 }, hex(&a), hex(&b)),
+                _ => "ERR".to_string(),
+            }
+        }
+        // ty_cuts <container> <version> <validx> : load every strict prefix of the saved file.
+        // Output: "<len> <canon of original> <classes>" where classes has one letter per cut offset 0..len-1:
+        //  e/g/u/w/c/s/l/o = the error classes, S = Ok with the same value, D = Ok with a DIFFERENT value, P = panic
+        "ty_cuts" => {
+            let (container, version, idx) = (toks[0], toks[1].parse::<u32>().unwrap(), toks[2].parse::<usize>().unwrap());
+            let vals = values();
+            let x = &vals[idx];
+            let bytes = match save_container(container, version, x) {
+                Ok(b) => b,
+                Err(e) => return format!("SAVE-ERR {}", err_class(&e)),
+            };
+            let orig = x.canon_string();
+            let mut classes = String::new();
+            for k in 0..bytes.len() {
+                let r = std::panic::catch_unwind(std::panic::AssertUnwindSafe(|| load_container::<T>(container, version, &bytes[..k])));
+                classes.push(match r {
+                    Err(_) => 'P',
+                    Ok(Ok((y, _))) => if y.canon_string() == orig { 'S' } else { 'D' },
+                    Ok(Err(e)) => match err_class(&e) {
+                        "EEof" => 'e', "EGeneral" => 'g', "EUtf8" => 'u', "EWrongVersion" => 'w', "EInvalidChar" => 'c',
+                        "ESchema" => 's', "ELayout" => 'l', _ => 'o',
+                    },
+                });
+            }
+            format!("{} {} {} {}", bytes.len(), hex(&bytes), orig, classes)
+        }
         "ty_canon" => {
             let idx = toks[0].parse::<usize>().unwrap();
             values()[idx].canon_string()
